@@ -1,0 +1,149 @@
+//! Read-only instrumentation used by external verification harnesses.
+//!
+//! Everything in here is compiled only with the `verif-hooks` feature. The
+//! hooks never influence the simulation: they expose the sizes and contents
+//! of the per-host socket table and its two indexes, which `netstat`
+//! deliberately hides for sockets in state `Closed`.
+
+use std::net::SocketAddr;
+
+use crate::fabric::HostId;
+use crate::kernel::Kernel;
+use crate::CURRENT;
+
+/// Sizes of one host's socket table and indexes.
+#[derive(Debug, Clone, Copy, PartialEq, Eq)]
+pub struct TableCounts {
+    /// Entries in the fd -> socket table.
+    pub sockets: usize,
+    /// Distinct keys in the binding index.
+    pub binding_keys: usize,
+    /// Fds listed under all binding keys together.
+    pub binding_fds: usize,
+    /// Entries in the 4-tuple connection index.
+    pub connections: usize,
+}
+
+/// One row per socket-table entry (also `Closed` ones), in table order.
+#[derive(Debug, Clone, PartialEq, Eq)]
+pub struct SocketRow {
+    pub fd: u64,
+    pub stream: bool,
+    pub local: Option<SocketAddr>,
+    pub listening: bool,
+    /// Fds in the listener's accept-ready queue.
+    pub ready: Vec<u64>,
+    pub backlog: usize,
+    pub fd_closed: bool,
+    pub tcb: Option<TcbRow>,
+}
+
+/// Copy of the scalar fields of a TCB.
+#[derive(Debug, Clone, PartialEq, Eq)]
+pub struct TcbRow {
+    pub state: String,
+    pub peer: SocketAddr,
+    pub snd_una: u32,
+    pub snd_nxt: u32,
+    pub snd_wnd: u16,
+    pub rcv_nxt: u32,
+    pub send_q: usize,
+    pub recv_q: usize,
+    pub wr_closed: bool,
+    pub peer_fin: bool,
+    pub fin_seq: Option<u32>,
+    pub reset: bool,
+    pub timed_out: bool,
+    pub egress_since_ack: u32,
+    pub retx_attempts: u32,
+}
+
+fn with_kernel<R>(host: HostId, f: impl FnOnce(&Kernel) -> R) -> R {
+    CURRENT.with(|c| {
+        let cell = c.borrow();
+        let net = cell
+            .as_ref()
+            .expect("no Net installed — call Net::enter() first");
+        f(net.fabric.kernel(host))
+    })
+}
+
+/// Table sizes of `host`. Panics if no `Net` is installed.
+pub fn table_counts(host: HostId) -> TableCounts {
+    with_kernel(host, |k| {
+        let (sockets, binding_keys, binding_fds, connections) = k.verif_table().verif_counts();
+        TableCounts {
+            sockets,
+            binding_keys,
+            binding_fds,
+            connections,
+        }
+    })
+}
+
+/// Every socket-table entry of `host`.
+pub fn sockets(host: HostId) -> Vec<SocketRow> {
+    with_kernel(host, |k| {
+        k.sockets()
+            .map(|(fd, s)| SocketRow {
+                fd: fd.verif_raw(),
+                stream: matches!(s.ty, crate::kernel::Type::Stream),
+                local: s
+                    .bound
+                    .as_ref()
+                    .map(|b| SocketAddr::new(b.local_addr, b.local_port)),
+                listening: s.listen.is_some(),
+                ready: s
+                    .listen
+                    .as_ref()
+                    .map(|l| l.ready.iter().map(|f| f.verif_raw()).collect())
+                    .unwrap_or_default(),
+                backlog: s.listen.as_ref().map(|l| l.backlog).unwrap_or(0),
+                fd_closed: s.fd_closed,
+                tcb: s.tcb.as_ref().map(|t| TcbRow {
+                    state: format!("{:?}", t.state),
+                    peer: t.peer,
+                    snd_una: t.snd_una,
+                    snd_nxt: t.snd_nxt,
+                    snd_wnd: t.snd_wnd,
+                    rcv_nxt: t.rcv_nxt,
+                    send_q: t.send_buf.len(),
+                    recv_q: t.recv_buf.len(),
+                    wr_closed: t.wr_closed,
+                    peer_fin: t.peer_fin,
+                    fin_seq: t.fin_seq,
+                    reset: t.reset,
+                    timed_out: t.timed_out,
+                    egress_since_ack: t.egress_since_ack,
+                    retx_attempts: t.retx_attempts,
+                }),
+            })
+            .collect()
+    })
+}
+
+/// Stream entries of the binding index of `host`: (local, fds).
+pub fn bindings(host: HostId) -> Vec<(SocketAddr, Vec<u64>)> {
+    with_kernel(host, |k| k.verif_table().verif_bindings())
+}
+
+/// Entries of the connection index of `host`: (local, remote, fd).
+pub fn connections(host: HostId) -> Vec<(SocketAddr, SocketAddr, u64)> {
+    with_kernel(host, |k| k.verif_table().verif_connections())
+}
+
+/// Position of `host` in registration order.
+pub fn host_index(host: HostId) -> usize {
+    CURRENT.with(|c| {
+        let cell = c.borrow();
+        let net = cell.as_ref().expect("no Net installed");
+        net.fabric.verif_host_index(host).expect("host registered")
+    })
+}
+
+/// `Debug` rendering of the whole installed `Net` (every kernel, table and
+/// queue). Only meant for hashing states during exhaustive exploration and
+/// for failure reports.
+pub fn debug_dump() -> String {
+    CURRENT.with(|c| format!("{:?}", c.borrow().as_ref()))
+}
